@@ -1,4 +1,6 @@
-(** * C15 -- remeshing primitives keep a triangle mesh a triangle mesh (work in progress). *)
+(** * C15 -- remeshing primitives keep a triangle mesh a triangle mesh.  Proved: failures are atomic, the area
+    identities behind swap and cut, and the well-formedness clause for swap and boundary cut; the other clauses
+    are decided by the executable specification Extract/KernOracle.v on implementation observations. *)
 From Coq Require Import List NArith Bool.
 From HC Require Import Stm.Prog Stm.Atomic Map2.Ops2 Map2.State2 Map2.Orbit2 Map2.Kern2 Map2.KOps2.
 Open Scope N_scope.
@@ -29,3 +31,21 @@ Proof.
   rewrite Hx, Hy. ring.
 Qed.
 Print Assumptions C15_cut_conserves_area.
+
+(** Well-formedness clause for two of the primitives, for ALL maps: a swap that terminates normally keeps the
+    2-map well formed whatever surrounds the edge (if one of the six darts around it is missing, an unsew of the
+    null dart makes the whole kernel fail); a cut of a boundary edge that terminates normally keeps it well formed
+    when the edge's dart has a predecessor and the three spare darts are in use (the first two distinct, the
+    third not the edge's dart). *)
+From Coq Require Import List.
+From HC Require Import Stm.ProgFacts Map2.Wf2 Map2.KernWf.
+Theorem C15_swap_keeps_wf2 `{Sig} : forall E n ks e c w cnt w' cnt',
+  wf2 n w -> okd n w e ->
+  run E (swap_edge n ks e) c w cnt = (Done tt, w', cnt') -> wf2 n w'.
+Proof. intros E n ks e c w cnt w' cnt'. exact (swap_edge_wf E n w ks e c cnt w' cnt'). Qed.
+Print Assumptions C15_swap_keeps_wf2.
+Theorem C15_cut_outer_keeps_wf2 `{Sig} : forall E n ks e nd1 nd2 nd3 c w cnt w' cnt',
+  wf2 n w -> okd n w e -> okd n w nd1 -> okd n w nd2 -> okd n w nd3 -> nd1 <> nd2 -> e <> nd3 -> beta w 0 e <> 0 ->
+  run E (cut_outer_edge n ks e nd1 nd2 nd3) c w cnt = (Done tt, w', cnt') -> wf2 n w'.
+Proof. intros E n ks e nd1 nd2 nd3 c w cnt w' cnt'. exact (cut_outer_edge_wf E n w ks e nd1 nd2 nd3 c cnt w' cnt'). Qed.
+Print Assumptions C15_cut_outer_keeps_wf2.
